@@ -65,6 +65,7 @@ pub struct RunResult {
     pub issued: Vec<Issued>,
     pub final_rows: BTreeMap<u8, BTreeMap<(String, u64), (datacake_crdt::HLCTimestamp, Option<Vec<u8>>)>>,
     pub cfg: ClusterCfg,
+    pub views_hist: BTreeMap<u8, Vec<(u64, BTreeSet<u8>)>>,
 }
 
 fn validate(sc: &Scenario) -> Result<(), String> {
@@ -166,6 +167,11 @@ pub fn run_cluster(sc: &Scenario, prop: &str) -> Result<RunResult, String> {
                 let issued = issued_ops(&cl.shared.borrow());
                 if let Some(i) = issued.get(*nth % issued.len().max(1)) {
                     let origin = i.ts.node();
+                    // only a node that holds the mutation can (re)send it: its clock is then
+                    // already past the mutation's timestamp, as in every real sender
+                    let holds = |n: u8| cl.shared.borrow().stores.get(&n).map(|s| s.st.lock().rows.get(&i.ks).and_then(|m| m.get(&i.id)).map(|r| r.ts >= i.ts).unwrap_or(false)).unwrap_or(false);
+                    let from = if holds(*from) { *from } else { origin };
+                    let from = &from;
                     if cl.send_cmd(*from, Cmd::Replay { ks: i.ks.clone(), id: i.id, ts: i.ts, data: i.data.clone(), origin }) {
                         out.fault("replayed_replication_message");
                     }
@@ -332,11 +338,12 @@ pub fn run_cluster(sc: &Scenario, prop: &str) -> Result<RunResult, String> {
     out.state_fp = fp.finish();
     out.sim_ms = cl.elapsed_ms();
     let ops = sh.ops.clone();
+    let views_hist = sh.views_hist.clone();
     let _ = active_end;
     let cfg = sc.cfg.clone();
     drop(sh);
     drop(cl);
-    Ok(RunResult { out, ops, issued, final_rows, cfg })
+    Ok(RunResult { out, ops, issued, final_rows, cfg, views_hist })
 }
 
 /// The C01 oracle.
